@@ -20,7 +20,7 @@ def _mk(**kw):
 def _summary(a):
     out = dict(k=np.asarray(a.kpts.k), wk=np.asarray(a.kpts.wk), occ_wk=np.asarray(a.occ.wk), f=np.asarray(a.occ.f),
                G=np.asarray(a.G), Sf=np.asarray(a.Sf), r=np.asarray(a.r), Nk=a.kpts.Nk, s=np.asarray(a.s),
-               nactive=[len(x[0]) for x in a.active], kpts_a=np.asarray(a.kpts.a))
+               nactive=[len(x[0]) for x in a.active], kpts_a=np.asarray(a.kpts.a), Nstate=a.occ.Nstate, Nempty=a.occ.Nempty)
     return out
 
 
@@ -81,6 +81,41 @@ def _scenarios():
     S[("Atoms", "set:f")] = f_explicit
     S[("Occupations", "set:f")] = f_explicit
     S[("Occupations", "set:wk")] = f_explicit
+
+    def occupation_counters():
+        """Histories over the electronic inputs of a built object (extra bands, smearing switched on / off, another charge): fillings AND the counters
+        (number of states, number of empty states) equal those of a fresh object with the same final inputs."""
+        bad = []
+        n = 0
+        for sym in ("He", "Ne"):
+            for hist, final in (
+                ([("bands", 8), ("smearing", 0.01)], dict(bands=8, smearing=0.01)),
+                ([("smearing", 0.01), ("bands", 8)], dict(bands=8, smearing=0.01)),
+                ([("bands", 6), ("smearing", 0.02), ("smearing", 0)], dict(bands=6, smearing=0)),
+                ([("smearing", 0.02), ("bands", 7), ("bands", 9)], dict(bands=9, smearing=0.02)),
+                ([("bands", 9)], dict(bands=9)),
+                ([("bands", 3), ("charge", 2 if sym == "He" else 8)], dict(bands=3, charge=2 if sym == "He" else 8)),  # no electrons left
+                ([("bands", 6), ("smearing", 0.01), ("charge", 1)], dict(bands=6, smearing=0.01, charge=1)),
+            ):
+                a = _mk(atom=sym)
+                a.build()
+                for k, v in hist:
+                    setattr(a.occ, k, v)
+                    a.build()
+                f = _mk(atom=sym)
+                for k, v in final.items():
+                    setattr(f.occ, k, v)
+                f.build()
+                n += 1
+                d = _diff(_summary(a), _summary(f))
+                if d:
+                    bad.append(dict(history=f"Atoms({sym}); build(); " + "; ".join(f"occ.{k} = {v}; build()" for k, v in hist), differs=d,
+                                    counters=dict(history=dict(Nstate=a.occ.Nstate, Nempty=a.occ.Nempty, bands=a.occ.bands), fresh=dict(Nstate=f.occ.Nstate, Nempty=f.occ.Nempty, bands=f.occ.bands))))
+        return (f"{n} histories over occ.bands / occ.smearing on built He and Ne objects vs fresh objects with the same final inputs", bad[:3], bool(bad))
+
+    S[("Occupations", "fill")] = occupation_counters
+    S[("Occupations", "set:smearing")] = occupation_counters
+    S[("Occupations", "set:bands")] = occupation_counters
 
     def magnetization():
         a = _mk(atom="Li", unrestricted=True)
